@@ -81,6 +81,7 @@ pub fn all_txs(r: &Report) -> Vec<RTx> {
     let mut txs = gen::txs_witness_classes();
     txs.extend(gen::txs_shapes());
     txs.extend(gen::txs_degenerate_witness());
+    txs.extend(gen::txs_input_variants());
     txs.extend(gen::txs_varint_boundaries(r.tier.thorough()));
     // outputs over the full confidential-field product, one per transaction and in pairs
     let outs = gen::txouts_small();
